@@ -147,7 +147,7 @@ class TreeOracle:
         self.unfinished = False     # a walk was left unfinished since the last reset of the iterator
 
     def step(self, op, line):
-        line = re.sub(r"^allocs=\d+ ", "", line)
+        line = re.sub(r"^allocs=(\d+|\*) ", "", line)
         w, f = op.split(), line.split()
         a = self.aspects
         I = self.ideal
@@ -156,6 +156,20 @@ class TreeOracle:
         st = state_of(line)
         kind = w[0]
         err = None
+        if kind == "inv":
+            # documented invalid arguments: every call fails with EINVAL and the table is unchanged
+            bad = [x for x in f[1:13] if x != "0:EINVAL"]
+            if len(f) < 13 or bad:
+                return "a call with a NULL / zero-length key did not fail with EINVAL (result:errno per call): %s" % " ".join(f[1:13])
+            self.armed = self.armed
+            return self.post(op, st, a)
+        strmap = {"puts": "put", "putf": "put", "gets": "get", "getss": "get", "rms": "rm"}
+        if kind in strmap:
+            # string-level entry points = object-level ones on key+NUL / value+NUL
+            w = [strmap[kind], hexs(unhex(w[1]) + b"\0")] + ([hexs(unhex(w[2]) + b"\0")] if len(w) > 2 else [])
+            if kind in ("gets", "getss"):
+                f = f + ["cost=0"]
+            kind = strmap[kind]
         armed, self.armed = self.armed, False
         if kind in ("fault", "faultfrom"):
             self.armed = True
@@ -195,8 +209,7 @@ class TreeOracle:
             v = unhex(w[2]) if kind == "put" else (NullVal(int(w[2])) if int(w[2]) else b"")
             i = ident(I.mode, k)
             if i in I.d:
-                if v:
-                    I.d[i][1] = v
+                I.d[i][1] = v           # every put replaces, also by an empty value
             else:
                 I.d[i] = [k, v]
             if self.walk:
@@ -415,8 +428,27 @@ class TreeCheck(Check):
         ops += ["rm %s" % hexs(b"a"), "rm %s" % hexs(b"f"), "walk", "clear", "putnull %s 3" % hexs(b"q"), "near %s" % hexs(b"q"), "next", "next"]
         return ops
 
+    @staticmethod
+    def stringapi_ops(big=False):
+        """putstr / putstrf / getstr / get / remove by C string, formatted values around the sizes at
+        which the formatting buffer grows, and the documented invalid-argument calls"""
+        lens = [0, 1, 5, 200, 255, 256, 257] + list(range(1020, 1030)) + list(range(2044, 2052)) + [4095, 4096, 4097]
+        if big:
+            lens += list(range(1000, 1050)) + [8191, 8192, 8193, 16384, 70000]
+        ks = [b"a", b"b", b"c", b"d"]
+        ops = ["new 0", "inv 6b"]
+        for i, n in enumerate(lens):
+            k = ks[i % 4]
+            v = bytes(0x41 + (j * 7 + n) % 26 for j in range(n))
+            ops += ["%s %s %s" % ("putf" if i % 3 else "puts", hexs(k), hexs(v)), "getss %s" % hexs(k), "gets %s" % hexs(k)]
+            if i % 5 == 4:
+                ops += ["rms %s" % hexs(k), "gets %s" % hexs(k), "rms %s" % hexs(k), "inv %s" % hexs(k)]
+        ops += ["walk", "inv 6b", "clear", "inv 6b", "putf 61 7a", "getss 61", "dump"]
+        return ops
+
     def corpus_streams(self):
         sts = super().corpus_streams()
+        sts.append(Stream("string-level-api", self.stringapi_ops(self.tier != "quick"), history=True))
         sts.append(Stream("null-data-values", self.nulldata_ops(), history=True))
         return sts
 
@@ -436,8 +468,16 @@ class TreeCheck(Check):
                     out.append("putnull %s %d" % (hexs(k), rng.choice([1, 8, 32])))   # NULL data with a size
                     continue
                 v = bytes(rng.randrange(256) for _ in range(rng.choice([0, 1, 1, 3, 40])))
+                if k.endswith(b"\0") and b"\0" not in k[:-1] and b"\0" not in v and rng.random() < 0.5:
+                    out.append("%s %s %s" % (rng.choice(["puts", "putf"]), hexs(k[:-1]), hexs(v)))   # string-level put
+                    continue
                 out.append("put %s %s" % (hexs(k), hexs(v)))
             elif o in ("rm", "get", "near"):
+                if o != "near" and k.endswith(b"\0") and b"\0" not in k[:-1] and rng.random() < 0.5:
+                    out.append("%s %s" % ({"rm": "rms", "get": "gets"}[o], hexs(k[:-1])))
+                    continue
+                if rng.random() < 0.02:
+                    out.append("inv %s" % hexs(k))
                 if rng.random() < 0.15:
                     k = bytes(rng.randrange(256) for _ in range(rng.randrange(1, 5)))
                 out.append("%s %s" % (o, hexs(k)))
